@@ -945,7 +945,7 @@ func suiteVtt(R *runner, r *rng) {
 	if R.tier == "thorough" {
 		N = 16000
 	}
-	for c := 0; c < N; c++ {
+	for c := 0; c < 3*N; c++ { // three times the other suites' share: the rendering freedoms multiply (see vtt.render.* counters)
 		d := randVttDoc(r, c%4 != 0)
 		vttExtendGT(r, d)
 		doc := renderVttC(R, r, d)
